@@ -18,6 +18,18 @@ local function attempts(phase)
   try("package.path", function() return package.path end)
   try("debug.getregistry", function() return debug.getregistry() end)
   try("load-binary", function() local f = load(string.dump(function() return "bin" end), "b", "b"); return f and f() end)
+  -- code compiled at run time by `load` with no environment argument sees the interpreter's REAL global table
+  try("load-src:dofile", function() return load("return dofile('secret.lua')")() end)
+  try("load-src:loadfile", function() local f = load("return loadfile('secret.lua')")(); return f and f() end)
+  try("load-src:require", function() return load("return require('secret')")() end)
+  try("load-src:other-_G", function() local g = load("return _G")(); return g ~= _G and "another global table" end)
+  try("load-src:other-_ENV", function() local e = load("return _ENV")(); return e ~= _ENV and "another environment" end)
+  try("load-src:forbidden-global", function()
+    local g = load("return _ENV")()
+    for _, n in ipairs({"io", "os", "package", "debug", "require", "dofile", "loadfile"}) do
+      if rawget(g, n) ~= nil and rawget(_ENV, n) == nil then return n end
+    end
+  end)
   try("string-meta-io", function() return ("x").open end)
   try("_G.io", function() return rawget(_G, "io") end)
   try("_G.os", function() return rawget(_G, "os") end)
